@@ -60,12 +60,23 @@ func (p Pattern) Matches(s string) bool {
 	si := 0
 	pl := len(p)
 	sl := len(s)
+	// Wildcard characters only have meaning at the start of a token
+	start := true
 	for pi < pl {
 		if si == sl {
 			return false
 		}
 		c := p[pi]
 		pi++
+		if !start {
+			if c != s[si] {
+				return false
+			}
+			si++
+			start = c == '.'
+			continue
+		}
+		start = false
 		switch c {
 		case '$':
 			fallthrough
@@ -86,6 +97,7 @@ func (p Pattern) Matches(s string) bool {
 				return false
 			}
 			si++
+			start = c == '.'
 		}
 	}
 	return si == sl
